@@ -35,7 +35,51 @@ TIMEOUT = 30000
 AMPL = {"t1", "t2", "t3", "t1cc", "t2cc"}
 
 
-def spin_valuation_factory(restricted=False):
+class _Overrides(dict):
+    """name -> override; every name without an own entry gets the closed-shell rule"""
+
+    def __init__(self, base, generic):
+        super().__init__(base)
+        self.generic = generic
+
+    def get(self, name, default=None):
+        if name in self:
+            return self[name]
+        return self.generic
+
+
+def _closed_shell_entry(vars_, model):
+    """Entries of a tensor in the property's restricted model: the entry vanishes on
+    non-spin-conserving blocks and is invariant under the global alpha<->beta flip."""
+    def entry(val, name, cls, U, L, bks_obj):
+        flip = lambda t: tuple(o ^ 1 for o in t)       # noqa: E731
+        if cls == "N":
+            orbs = tuple(U)
+            if len(orbs) == 2 and model.spin_of(orbs[0]) != model.spin_of(orbs[1]):
+                return []
+            key = min(orbs, flip(orbs))
+            return [(Fraction(1), (vars_.get(("N", name + "~", key)),))]
+        kind, bks = val.spec.get((name, len(U), len(L)), ("S" if cls == "S" else "A", bks_obj))
+        sign, can = canon_entry(kind, U, L, bks)
+        if sign == 0:
+            return []
+        U2, L2 = can
+        if len(U2) == len(L2):
+            if sum(1 for o in U2 if model.spin_of(o) == "a") != sum(1 for o in L2 if model.spin_of(o) == "a"):
+                return []
+        s2, can2 = canon_entry(kind, flip(U2), flip(L2), bks)
+        if s2 == 0:
+            return []
+        if can2 == can:
+            if s2 == -1:
+                return []
+        elif can2 < can:
+            sign, can = sign * s2, can2
+        return [(Fraction(sign), (vars_.get(("T", name + "~", len(U), len(L), can[0], can[1])),))]
+    return entry
+
+
+def spin_valuation_factory(restricted=False, closed_shell=False):
     def factory(vars_, model, spec):
         spec = dict(spec)
         spec[("v", 2, 2)] = ("S", 1)
@@ -90,13 +134,17 @@ def spin_valuation_factory(restricted=False):
                 form += [(Fraction(-1), (vars_.get(("N", "e~", (model.spatial(o),))),)) for o in L]
                 return val.inverse_of(form, 1)
             overrides["D"] = D_override
+        if closed_shell:
+            overrides = _Overrides(overrides, _closed_shell_entry(vars_, model))
         return FreeValuation(vars_, model, spec, overrides=overrides, zero_blocks=zero)
     return factory
 
 
-def gen_expr(rng, restricted=False, closed=False):
+def gen_expr(rng, restricted=False, closed=False, symbols=False):
     from adcgen.indices import get_symbols
     names = ["V", "V", "t1", "t2", "Y", "c", "d0"] if not restricted else ["V", "V", "D"]
+    if symbols:
+        names = ["V", "t1", "t2", "Y", "f", "c"]
     if closed:
         names = ["V", "t1", "t2"]
     g = TermGen(rng, spaces="ov", n_tensors=(1, 3), max_contracted=3,
@@ -127,14 +175,14 @@ def run_integrate(item):
     from adcgen import Expr
     from adcgen.indices import get_symbols, Index
     from adcgen.spatial_orbitals import integrate_spin, transform_to_spatial_orbitals
-    restricted = mode == "restricted"
+    restricted = mode in ("restricted", "restricted_sym")
     try:
-        raw, T = gen_expr(rng, restricted)
+        raw, T = gen_expr(rng, mode == "restricted", symbols=(mode == "restricted_sym"))
     except RuntimeError:
         return {"status": "skipped", "item": item}
     if raw is S.Zero or not consistent_bks(raw):
         return {"status": "skipped", "item": item}
-    real = mode in ("expand_eri", "restricted")
+    real = mode in ("expand_eri", "restricted", "restricted_sym")
     e = Expr(raw, real=real)
     if any(set(t.target) != set(T) for t in e.terms):
         return {"status": "skipped", "item": item}
@@ -172,7 +220,8 @@ def run_integrate(item):
         model = Model(1, 1, spin=True)
     try:
         if restricted:
-            oc = _compare_restricted(e.sympy, out.sympy, order, spins, tB, model)
+            oc = _compare_restricted(e.sympy, out.sympy, order, spins, tB, model,
+                                     closed_shell=(mode == "restricted_sym"))
         else:
             oc = compare(e.sympy, out.sympy, order, model, timeout_ms=TIMEOUT, seed=seed(),
                          valuation_factory=spin_valuation_factory(False), target_B=tB)
@@ -184,7 +233,7 @@ def run_integrate(item):
     return res
 
 
-def _compare_restricted(A, B, order, spins, tB, model):
+def _compare_restricted(A, B, order, spins, tB, model, closed_shell=False):
     """B carries only alpha indices; A is evaluated at (spatial of the alpha orbital,
     requested spin).  Implemented by giving A spin-labelled copies of its target
     indices (relabelling the free target indices of A is a pure renaming)."""
@@ -200,7 +249,7 @@ def _compare_restricted(A, B, order, spins, tB, model):
     t0 = time.time()
     irA, irB = IR.expr_ir(expand_numer(A2)), IR.expr_ir(expand_numer(B))
     vars_ = Vars()
-    val = spin_valuation_factory(True)(vars_, model, spec_from(irA, irB))
+    val = spin_valuation_factory(True, closed_shell)(vars_, model, spec_from(irA, irB))
     kB = [IR.idx_ir(s) for s in tB]
     kA = [IR.idx_ir(s) for s in tA]
     pairs = []
@@ -331,9 +380,9 @@ def main():
     TIMEOUT = 30000 if quick else 180000
     run = Run("C15", a.tier, "translation_validation")
     base = seed() * 1000003 + 1500
-    modes = ["integrate", "plain", "expand_eri", "restricted"]
-    n = 200 if quick else 3000
-    items = [(base + k, modes[k % 4]) for k in range(n)]
+    modes = ["integrate", "plain", "expand_eri", "restricted", "restricted_sym"]
+    n = 250 if quick else 3750
+    items = [(base + k, modes[k % 5]) for k in range(n)]
     results = pmap(run_integrate, items, limit=200 if quick else 900)
     nb = 60 if quick else 600
     bitems = [("expr" if k % 3 else "itmd", base + 9000 + k) for k in range(nb)]
@@ -350,7 +399,8 @@ def main():
                             distinct_key=(part, r.get("in"), r.get("target"), r.get("spin"), r.get("mode")),
                             nontrivial=bool(r.get("nontrivial")))
             if st == "differ":
-                run.violation(f"{part}:{r.get('in')}|{r.get('target')}|{r.get('spin')}|{r.get('mode')}",
+                pre = "restricted-merged-blocks:" if r.get("mode") == "restricted_sym" else ""
+                run.violation(f"{pre}{part}:{r.get('in')}|{r.get('target')}|{r.get('spin')}|{r.get('mode')}",
                               f"{part} ({r.get('mode')}): {r.get('in', '')[:200]} target {r.get('target')} spin {r.get('spin')} -> {(r.get('out') or '')[:200]}",
                               {"part": part, "item": list(r["item"]), "input": r.get("in"), "target": r.get("target"),
                                "spin": r.get("spin"), "mode": r.get("mode"), "output": r.get("out"),
@@ -361,14 +411,15 @@ def main():
         {"function": "integrate_spin, transform_to_spatial_orbitals, allowed_spin_blocks, Obj.allowed_spin_blocks, expand_antisym_eri, RegisteredIntermediate.allowed_spin_blocks (run concretely; spin-orbital input and spin-labelled output encoded with shared unknowns)",
          "source_sha": driver.src_hash(*FILES)}]
     run.cov["bounds"] = {
-        "expressions": "1-2 terms of 1-3 tensors (V, t amplitudes, ADC vectors, unknown tensors, deltas; restricted: V and symbolic denominators only), <= 3 contracted, <= 3 targets in random order, random target spins",
+        "expressions": "1-2 terms of 1-3 tensors (V, t amplitudes, ADC vectors, unknown tensors, deltas; restricted: V and symbolic denominators; restricted_sym: V, t, f, Y, c), <= 3 contracted, <= 3 targets in random order, random target spins",
         "models": "2o2v / 1o2v / 2o1v / 1o1v spatial x {alpha, beta}",
         "blocks": "expression-level allowed_spin_blocks and every registered intermediate except third order / quadruples: up to 6 non-reported blocks each shown identically zero",
         "shapes": n + nb, "z3_timeout_ms": TIMEOUT}
     run.cov["rule"] = "seeded generator; non-trivial = non-zero output / at least one non-reported block; distinct = distinct (input, target, spin, mode)"
     run.assumptions += [
         "valuation spin: <pq||rs> from symbolic Coulomb integrals with 8-fold symmetry, t-amplitudes spin conserving, every other tensor unrestricted (as the library treats unknown tensors)",
-        "restricted=True is only checked for expressions of integrals and symbolic denominators (for amplitudes 'alpha and beta tensors coincide' has no single-valued reading after the beta->alpha renaming; Fock-like unknown tensors keep their alpha-beta blocks): stated as outside the claim",
+        "restricted=True, mode 'restricted': expressions of integrals and symbolic denominators (the supported use), integrals / energies depend on the spatial orbital only",
+        "restricted=True, mode 'restricted_sym': expressions that keep amplitude / Fock / ADC-vector / unknown symbols, valued in the property's restricted model (entries vanish on non-spin-conserving blocks and are invariant under the global alpha<->beta flip); disagreements there are the known finding C15-restricted-merged-blocks (the beta->alpha renaming merges spin blocks of one symbol)",
     ]
     sys.exit(run.finish())
 
